@@ -659,3 +659,187 @@ Proof.
   intros bytes l Hb Hm Hwf Hfit. unfold dec_bytes. rewrite Hm. cbn [Z.eqb]. rewrite Hb.
   apply stream_roundtrip; assumption.
 Qed.
+
+(* ================= soundness of the reader: accepted bits are canonical ================= *)
+
+Lemma read_fixed_inv : forall w r v r', read_fixed w r = Some (v, r') ->
+  snd r = bits_of w v ++ snd r' /\ 0 <= v < 2 ^ Z.of_nat w /\ fst r' = fst r + Z.of_nat w.
+Proof.
+  intros w [p bs] v [p' rest] H. unfold read_fixed, rtake in H. cbn [fst snd] in *.
+  destruct (take w bs) as [[h t]|] eqn:T; [|discriminate].
+  inversion H; subst v p' rest. clear H.
+  destruct (take_some _ _ _ _ T) as [-> Hl].
+  pose proof (val_of_bound h) as B. rewrite Hl in B.
+  rewrite <- Hl at 1. rewrite bits_of_val_of. auto.
+Qed.
+
+Lemma read_align_inv : forall r r', read_align r = Some r' ->
+  snd r = zeros (padlen (fst r)) ++ snd r' /\ fst r' = fst r + Z.of_nat (padlen (fst r)).
+Proof.
+  intros [p bs] [p' rest] H. unfold read_align, rtake in H. cbn [fst snd] in *.
+  destruct (take (padlen p) bs) as [[h t]|] eqn:T; [|discriminate].
+  destruct (all_false h) eqn:A; [|discriminate].
+  inversion H; subst p' rest. clear H.
+  destruct (take_some _ _ _ _ T) as [-> Hl].
+  apply all_false_is_zeros in A. rewrite Hl in A. rewrite <- A. auto.
+Qed.
+
+Lemma read_ops_inv : forall fuel n r ops r', read_ops fuel n r = Some (ops, r') -> 0 <= n ->
+  snd r = enc_ops ops ++ snd r' /\ Forall (fun v => 0 <= v) ops /\ n = Z.of_nat (length ops) /\
+  fst r' = fst r + Z.of_nat (length (enc_ops ops)).
+Proof.
+  induction fuel; intros n r ops r' H Hn.
+  - cbn [read_ops] in H. destruct (Z.leb_spec n 0); [|discriminate].
+    inversion H; subst. cbn [enc_ops flat_map app length]. repeat split; auto; lia.
+  - cbn [read_ops] in H. destruct (Z.leb_spec n 0).
+    + inversion H; subst. cbn [enc_ops flat_map app length]. repeat split; auto; lia.
+    + destruct (read_vbr 6 r) as [[v r1]|] eqn:V; [|discriminate].
+      destruct (read_ops fuel (n - 1) r1) as [[vs r2]|] eqn:R; [|discriminate].
+      inversion H; subst ops r'. clear H.
+      destruct (read_vbr_sound 6 r v r1 ltac:(lia) V) as (Hv & Hs & Hp).
+      destruct (IHfuel _ _ _ _ R ltac:(lia)) as (Hs2 & Hf & Hl & Hp2).
+      unfold enc_ops in *. cbn [flat_map length]. rewrite app_length, <- app_assoc.
+      rewrite Hs, Hs2. repeat split; auto; lia.
+Qed.
+
+(* terminator of an item list: END_BLOCK + alignment inside a block, nothing at top level *)
+Definition term (top : bool) (w : nat) (pe : Z) : list bool :=
+  if top then [] else bits_of w 0 ++ zeros (padlen (pe + Z.of_nat w)).
+
+Theorem dec_items_sound : forall fuel top w p bs l p' rest, 0 <= p -> (2 <= w <= 32)%nat ->
+  dec_items fuel top w (p, bs) = Ok (l, (p', rest)) ->
+  bs = enc_items w p l ++ term top w (p + Z.of_nat (length (enc_items w p l))) ++ rest /\
+  p' = p + Z.of_nat (length (enc_items w p l)) + Z.of_nat (length (term top w (p + Z.of_nat (length (enc_items w p l))))) /\
+  items_wf l /\ items_fits w p l /\ (top = true -> rest = []).
+Proof.
+  induction fuel; intros top w p bs l p' rest Hp Hw H; [discriminate|].
+  cbn [dec_items fst snd] in H.
+  destruct bs as [|b0 bs0].
+  - destruct top; [|discriminate]. inversion H; subst. unfold enc_items, term. cbn [enc_list_with app length].
+    repeat split; auto; try lia; try exact I.
+  - remember (b0 :: bs0) as bs eqn:Ebs. clear Ebs b0 bs0.
+    unfold dec_body in H.
+    destruct (read_fixed w (p, bs)) as [[id r1]|] eqn:F; [|discriminate].
+    destruct (read_fixed_inv _ _ _ _ F) as (Hs1 & Hid & Hp1). cbn [fst snd] in Hs1, Hp1.
+    destruct (Z.eqb_spec id 0) as [->|Hn0].
+    { (* END_BLOCK *)
+      destruct top; [discriminate|].
+      destruct (read_align r1) as [r2|] eqn:A; [|discriminate].
+      inversion H; subst l r2. clear H.
+      destruct (read_align_inv _ _ A) as (Hs2 & Hp2). cbn [fst snd] in Hs2, Hp2.
+      rewrite Hp1 in Hs2, Hp2.
+      unfold enc_items, term. cbn [enc_list_with app length]. rewrite Z.add_0_r.
+      rewrite Hs1, Hs2. rewrite app_length, bits_of_length, zeros_length, <- app_assoc.
+      repeat split; auto; try lia; try exact I; try discriminate. }
+    destruct (Z.eqb_spec id 1) as [->|Hn1].
+    { (* ENTER_SUBBLOCK *)
+      destruct (read_vbr 8 r1) as [[bid r2]|] eqn:V1; [|discriminate].
+      destruct (read_vbr 4 r2) as [[nw r3]|] eqn:V2; [|discriminate].
+      destruct (Z.ltb_spec nw 2); [discriminate|]. destruct (Z.gtb_spec nw 32); [discriminate|]. cbn [orb] in H.
+      destruct (read_align r3) as [r4|] eqn:A; [|discriminate].
+      destruct (read_fixed 32 r4) as [[len r5]|] eqn:F2; [|discriminate].
+      destruct r5 as [p5 bs5].
+      destruct (dec_items fuel false (Z.to_nat nw) (p5, bs5)) as [[body [p6 bs6]]|e q] eqn:D1; [|discriminate].
+      cbn [fst] in H.
+      destruct (Z.eqb_spec p6 (p5 + 32 * len)) as [Hlen|]; [|discriminate].
+      destruct (dec_items fuel top w (p6, bs6)) as [[restl [p7 bs7]]|e q] eqn:D2; [|discriminate].
+      inversion H; subst l p7 bs7. clear H.
+      destruct (read_vbr_sound 8 _ _ _ ltac:(lia) V1) as (Hbid & Hs2 & Hp2).
+      destruct (read_vbr_sound 4 _ _ _ ltac:(lia) V2) as (Hnw & Hs3 & Hp3).
+      destruct (read_align_inv _ _ A) as (Hs4 & Hp4).
+      destruct (read_fixed_inv _ _ _ _ F2) as (Hs5 & Hlenr & Hp5). cbn [fst snd] in Hs5, Hp5.
+      set (nwn := Z.to_nat nw) in *.
+      assert (Hnwn : Z.of_nat nwn = nw) by (unfold nwn; lia).
+      assert (Hnwr : (2 <= nwn <= 32)%nat) by lia.
+      assert (Hhdr : fst r3 = p + Z.of_nat (length (blk_header w bid nwn))).
+      { unfold blk_header. rewrite !app_length, bits_of_length, Hnwn. lia. }
+      assert (Hp5' : p5 = blk_body_start w p bid nwn).
+      { unfold blk_body_start. rewrite <- Hhdr. change (Z.of_nat 32) with 32 in Hp5. lia. }
+      pose proof (blk_body_start_aligned w p bid nwn Hp) as [Hal Hbs0].
+      destruct (IHfuel false nwn p5 bs5 body p6 bs6 ltac:(lia) Hnwr D1) as (Hb5 & Hp6 & Hwfb & Hfb & _).
+      set (body_bits := enc_items nwn p5 body) in *.
+      unfold term in Hb5, Hp6. rewrite app_length, bits_of_length, zeros_length in Hp6.
+      replace (p5 + Z.of_nat (length body_bits) + Z.of_nat nwn) with (p5 + Z.of_nat (length body_bits + nwn)) in Hb5, Hp6 by lia.
+      (* the declared length is the block's word count *)
+      pose proof (block_words_32 w p bid nwn body_bits Hp) as H32.
+      rewrite <- Hp5' in H32. rewrite app_length, bits_of_length in H32.
+      assert (HL : len = block_words w p bid nwn body_bits) by lia.
+      assert (Hp6' : 0 <= p6) by lia.
+      destruct (IHfuel top w p6 bs6 restl p' rest Hp6' Hw D2) as (Hb6 & Hpp & Hwfr & Hfr & Htop).
+      assert (Hitem : enc_item w p (Blk bid nwn body) =
+                      bits_of w 1 ++ enc_vbr 8 bid ++ enc_vbr 4 nw ++ zeros (padlen (fst r3)) ++ bits_of 32 len ++
+                      body_bits ++ bits_of nwn 0 ++ zeros (padlen (p5 + Z.of_nat (length body_bits + nwn)))).
+      { rewrite enc_item_blk, enc_block_eq. rewrite <- Hp5'. fold body_bits. rewrite <- HL.
+        rewrite (Z.mod_small len) by (unfold two32; change (2 ^ Z.of_nat 32) with 4294967296 in Hlenr; lia).
+        rewrite Hnwn, <- Hhdr. rewrite app_length, bits_of_length. reflexivity. }
+      assert (Hilen : p + Z.of_nat (length (enc_item w p (Blk bid nwn body))) = p6).
+      { rewrite Hitem. rewrite !app_length, !bits_of_length, !zeros_length.
+        change (Z.of_nat 32) with 32 in Hp5. lia. }
+      rewrite enc_items_cons, Hilen.
+      rewrite (app_length (enc_item w p (Blk bid nwn body))), Nat2Z.inj_add, Z.add_assoc, Hilen.
+      split; [|split; [|split; [|split]]].
+      - rewrite <- app_assoc, Hitem, <- !app_assoc.
+        rewrite Hs1, Hs2, Hs3, Hs4, Hs5, Hb5, <- !app_assoc. fold body_bits.
+        rewrite Hb6. reflexivity.
+      - exact Hpp.
+      - split; [|exact Hwfr]. apply item_wf_blk. auto.
+      - apply items_fits_cons. split.
+        + apply item_fits_blk. rewrite <- Hp5'. fold body_bits. split; [|exact Hfb].
+          rewrite <- HL. unfold two32. change (2 ^ Z.of_nat 32) with 4294967296 in Hlenr. lia.
+        + rewrite Hilen. exact Hfr.
+      - exact Htop. }
+    destruct (Z.eqb_spec id 2) as [|Hn2]; [discriminate|].
+    destruct (Z.eqb_spec id 3) as [->|Hn3]; [|discriminate].
+    (* UNABBREV_RECORD *)
+    destruct (read_vbr 6 r1) as [[code r2]|] eqn:V1; [|discriminate].
+    destruct (read_vbr 6 r2) as [[n r3]|] eqn:V2; [|discriminate].
+    destruct (read_ops fuel n r3) as [[ops r4]|] eqn:O; [|discriminate].
+    destruct r4 as [p4 bs4].
+    destruct (dec_items fuel top w (p4, bs4)) as [[restl [p7 bs7]]|e q] eqn:D2; [|discriminate].
+    inversion H; subst l p7 bs7. clear H.
+    destruct (read_vbr_sound 6 _ _ _ ltac:(lia) V1) as (Hcode & Hs2 & Hp2).
+    destruct (read_vbr_sound 6 _ _ _ ltac:(lia) V2) as (Hn & Hs3 & Hp3).
+    destruct (read_ops_inv _ _ _ _ _ O Hn) as (Hs4 & Hfo & Hnl & Hp4). cbn [fst snd] in Hs4, Hp4.
+    assert (Hp4' : 0 <= p4) by lia.
+    destruct (IHfuel top w p4 bs4 restl p' rest Hp4' Hw D2) as (Hb4 & Hpp & Hwfr & Hfr & Htop).
+    assert (Hilen : p + Z.of_nat (length (enc_item w p (Rec code ops))) = p4).
+    { cbn [enc_item]. unfold enc_record. rewrite !app_length, bits_of_length, <- Hnl. lia. }
+    rewrite enc_items_cons, Hilen.
+    rewrite (app_length (enc_item w p (Rec code ops))), Nat2Z.inj_add, Z.add_assoc, Hilen.
+    split; [|split; [|split; [|split]]].
+    + cbn [enc_item]. unfold enc_record. rewrite <- !app_assoc, <- Hnl.
+      rewrite Hs1, Hs2, Hs3, Hs4, Hb4. reflexivity.
+    + exact Hpp.
+    + split; [|exact Hwfr]. cbn [item_wf]. auto.
+    + apply items_fits_cons. split; [exact I|]. rewrite Hilen. exact Hfr.
+    + exact Htop.
+Qed.
+
+(* whatever the stream reader accepts is exactly the canonical encoding of the tree it
+   returns: magic, abbreviation ids, canonical VBRs, zero padding to 32-bit boundaries,
+   and block length words equal to the body length in words *)
+Theorem dec_stream_sound : forall bs l, dec_stream bs = Ok l ->
+  bs = enc_stream l /\ items_wf l /\ items_fits 2 32 l.
+Proof.
+  intros bs l H. unfold dec_stream, dec_stream_fuel in H.
+  destruct (take 32 bs) as [[m rest]|] eqn:T; [|discriminate].
+  destruct (Z.eqb_spec (val_of m) 3737142082) as [Hm|]; [|discriminate].
+  destruct (dec_items (S (length bs)) true 2 (32, rest)) as [[l0 [p' r']]|e q] eqn:D; [|discriminate].
+  inversion H; subst l0. clear H.
+  destruct (take_some _ _ _ _ T) as [-> Hl].
+  destruct (dec_items_sound _ true 2%nat 32 rest l p' r' ltac:(lia) ltac:(lia) D) as (Hb & _ & Hwf & Hfit & Htop).
+  rewrite (Htop eq_refl) in Hb. unfold term in Hb. cbn [app] in Hb. rewrite app_nil_r in Hb.
+  split; [|split; assumption].
+  unfold enc_stream. rewrite Hb. f_equal.
+  destruct magic_val as [Hv Hml].
+  rewrite <- (bits_of_val_of m), Hl, Hm. symmetry.
+  rewrite <- (bits_of_val_of magic_bits), Hml, Hv. reflexivity.
+Qed.
+
+Theorem dec_bytes_sound : forall bytes l, dec_bytes bytes = Ok l ->
+  bits_of_bytes bytes = enc_stream l /\ Z.of_nat (length bytes) mod 4 = 0 /\ items_wf l /\ items_fits 2 32 l.
+Proof.
+  intros bytes l H. unfold dec_bytes in H.
+  destruct (Z.eqb_spec (Z.of_nat (length bytes) mod 4) 0) as [Hm|]; [|discriminate].
+  destruct (dec_stream_sound _ _ H) as (Hb & Hwf & Hfit). auto.
+Qed.
